@@ -84,7 +84,10 @@ def data_params(draw, rep=None, structure=None, max_n=300):
                 if kind == 'values':
                     attrs = vals
                 else:
-                    w = draw(st.lists(st.integers(1, 9), min_size=len(vals), max_size=len(vals)))
+                    # frequencies may be exactly 0 for some values (never drawn at random, but still part of the declared domain)
+                    w = draw(st.lists(st.integers(0, 9), min_size=len(vals), max_size=len(vals)))
+                    if not any(w):
+                        w[0] = 1
                     tot = sum(w)
                     attrs = [vals, [x / tot for x in w]]
             struct.append([ix, attrs])
